@@ -35,10 +35,13 @@ META = {
                   "literally for the model's matrices (generic sparse products, any direct orthonormal tangent bases; over R "
                   "with the code's bases); row k of the assembled gradient matrix times the vertex values of an affine function "
                   "is its tangential gradient in face k; cell volumes, volume vertex masses and every inverse/sqrt option stay "
-                  "positive (R). CONDITIONAL (suffix _cond) on decidable mesh tests that the kernel evaluates on every generated "
-                  "case: the edge mass matrix sums to the total area when the stored edge list covers each face's three "
-                  "half-edges exactly once (edge_cover_ok; positivity of edge masses proved over R), the tetrahedral dual "
-                  "Laplacian is symmetric when cell_to_cell is (cell_adjacency_ok). RESTATEMENTS (pin the generated patterns, "
+                  "positive (R). The two theorems that were conditional on model-level tests are now stated on the input lists alone: "
+                  "the edge mass matrix sums to the total area on every oriented manifold surface with a consistent edge list "
+                  "(surface_manifold_ok: no half-edge in two faces, stored edges pairwise distinct in both directions, every side "
+                  "of every face stored; C08_mass_edges, positivity over R), the tetrahedral dual Laplacian is symmetric on every "
+                  "conforming tetrahedral mesh (cells_conforming: four distinct vertices per cell, every triangular face in at most "
+                  "one other cell; C08_sym_rowsum_tetra) - both predicates are evaluated by the kernel on every generated case. "
+                  "RESTATEMENTS (pin the generated patterns, "
                   "count as tests): C08_incidence_patterns, C08_documented_weights_shapes, the option conjuncts of C08_mass, "
                   "C08_gradient_real_rows. ONLY TESTED (correspondence + oracle): FlatConnectionFaces bases, the values of the "
                   "edge / dual-cotan / volume Laplacian weights beyond symmetry and zero row sums (cotan_edge_diagonal values "
@@ -54,8 +57,8 @@ META = {
                   "theorems stated over R. Deliberately left free (oracle, driver and kernel batches do not constrain them): the "
                   "sparse format, dtype and index types of the returned matrices, whether zero coefficients are stored; which "
                   "direct orthonormal tangent basis a connection picks; the VALUE of the uniform weight (only: one constant per "
-                  "(triangle, edge) incidence), the values of cotan_edge_diagonal "
-                  "and of the dual / edge / volume / tetrahedral Laplacians beyond symmetry and zero row sums (the kernel batches "
+                  "incidence; same for the uniform dual / edge / tetrahedral Laplacians), the clamp of a vanishing dual cotangent "
+                  "weight, the values of the volume Laplacian beyond symmetry and zero row sums (the kernel batches "
                   "still compare them with the model: a change there is `unproved`, never a concrete violation); exception class "
                   "and message of any refusal; whether calls the text does not speak about are refused or answered (flags given "
                   "as int / numpy.bool_, numpy weight types, explicit scipy format names, meshes outside the quantifier: "
@@ -895,7 +898,72 @@ def oracle_outs_(case, obs):
                     bad.append(("lap:0/uniform", "laplacian(cotan=False) is not one constant weight per (triangle, edge) incidence"))
         for nm in ("laptri:1", "laptri:0", "lapedges:1", "lapedges:0"):
             sym_rowsum(nm, get(nm, (nf, nf) if nm.startswith("laptri") else (m, m)))
-        # (values of the dual / edge Laplacians and of cotan_edge_diagonal are not fixed by the property)
+        # defining identities of the cotangent-weighted operators (their entries ARE defined; the uniform variants only up to
+        # one constant factor; the clamp of a vanishing dual weight is left free: such edges are skipped)
+        cotsum = np.zeros(m)
+        he = {}
+        for t, (a, b, c) in enumerate(F):
+            for (i, j, k) in ((a, b, c), (b, c, a), (c, a, b)):      # edge (i, j), opposite vertex k
+                u, w = V[i] - V[k], V[j] - V[k]
+                cotsum[eid[(min(i, j), max(i, j))]] += np.float64(np.dot(u, w)) / np.float64(np.linalg.norm(np.cross(u, w)))
+                he[(i, j)] = t
+        safe = np.abs(cotsum) > 1e-6
+        C0 = get("ced:0", (m, m))
+        if C0 is not None and not close(C0, np.diag(cotsum)):
+            bad.append(("ced:0/value", "cotan_edge_diagonal(inverse=False) is not the sum of the cotangents opposite to each edge"))
+        C1 = get("ced:1", (m, m))
+        if C1 is not None:
+            d1 = np.diag(C1)
+            if not close(C1, np.diag(d1)) or not close(d1[safe], 1 / cotsum[safe]):
+                bad.append(("ced:1/value", "cotan_edge_diagonal(inverse=True) is not the diagonal of 1 / (sum of the opposite cotangents)"))
+        dual = [(t, he[(b_, a_)], eid[(min(a_, b_), max(a_, b_))]) for (a_, b_), t in he.items() if (b_, a_) in he and a_ < b_]
+        Wd = np.zeros((nf, nf))
+        for t, s_, e_ in dual:
+            for (x_, y_, v_) in ((t, t, 1), (s_, s_, 1), (t, s_, -1), (s_, t, -1)):
+                Wd[x_, y_] += v_
+        LT0 = get("laptri:0", (nf, nf))
+        if LT0 is not None and len(dual):
+            t, s_, _ = dual[0]
+            cst = LT0[t, s_] / Wd[t, s_]
+            if not (np.isfinite(cst) and cst != 0 and close(LT0, cst * Wd)):
+                bad.append(("laptri:0/uniform", "laplacian_triangles(cotan=False) is not a constant multiple of degree - adjacency of the dual graph"))
+        LT1 = get("laptri:1", (nf, nf))
+        if LT1 is not None and all(safe[e_] for _, _, e_ in dual):
+            Wc = np.zeros((nf, nf))
+            for t, s_, e_ in dual:
+                for (x_, y_, v_) in ((t, t, 1), (s_, s_, 1), (t, s_, -1), (s_, t, -1)):
+                    Wc[x_, y_] += v_ / cotsum[e_]
+            if not close(LT1, Wc):
+                bad.append(("laptri:1/value", "laplacian_triangles(cotan=True) is not the dual-graph Laplacian with weights 1 / (cot a + cot b)"))
+        LE1 = get("lapedges:1", (m, m))
+        if LE1 is not None:
+            We = np.zeros((m, m))
+            for (a, b, c) in F:
+                for (pv, cu, nx) in ((c, a, b), (a, b, c), (b, c, a)):     # corner at cu between the edges (pv,cu) and (cu,nx)
+                    u, w = V[pv] - V[cu], V[nx] - V[cu]
+                    ct = np.float64(np.dot(u, w)) / np.float64(np.linalg.norm(np.cross(u, w)))
+                    e1, e2 = eid[(min(pv, cu), max(pv, cu))], eid[(min(cu, nx), max(cu, nx))]
+                    We[e1, e2] -= 2 * ct
+                    We[e2, e1] -= 2 * ct
+                    We[e1, e1] += 2 * ct
+                    We[e2, e2] += 2 * ct
+            if not close(LE1, We):
+                bad.append(("lapedges:1/value", "laplacian_edges(cotan=True) is not the edge (Crouzeix-Raviart) stiffness matrix -2 cot per corner"))
+        LE0 = get("lapedges:0", (m, m))
+        if LE0 is not None:
+            We = np.zeros((m, m))
+            for (a, b, c) in F:
+                for (pv, cu, nx) in ((c, a, b), (a, b, c), (b, c, a)):
+                    e1, e2 = eid[(min(pv, cu), max(pv, cu))], eid[(min(cu, nx), max(cu, nx))]
+                    We[e1, e2] -= 1
+                    We[e2, e1] -= 1
+                    We[e1, e1] += 1
+                    We[e2, e2] += 1
+            nz = np.argwhere(We != 0)
+            if len(nz):
+                cst = LE0[tuple(nz[0])] / We[tuple(nz[0])]
+                if not (np.isfinite(cst) and cst != 0 and close(LE0, cst * We)):
+                    bad.append(("lapedges:0/uniform", "laplacian_edges(cotan=False) is not one constant weight per corner"))
         # gradient
         for conn in ("conn", "flat"):
             o = outs.get("gradc:" + conn)
@@ -1003,6 +1071,18 @@ def oracle_outs_(case, obs):
         sym_rowsum("vollap", get("vollap", (n, n)))
         TL = get("tetlap", (nc, nc))
         sym_rowsum("tetlap", TL)
+        if TL is not None:
+            W = np.zeros((nc, nc))
+            for i in range(nc):
+                for j in range(nc):
+                    if i != j and len(set(C[i]) & set(C[j])) == 3:
+                        W[i, j] -= 1
+                        W[i, i] += 1
+            nz = np.argwhere(W != 0)
+            if len(nz):
+                cst = TL[tuple(nz[0])] / W[tuple(nz[0])]
+                if not (np.isfinite(cst) and cst != 0 and close(TL, cst * W)):
+                    bad.append(("tetlap/uniform", "laplacian_tetrahedra is not a constant multiple of degree - adjacency of the dual graph"))
         vol = np.array([abs(np.linalg.det(np.array([V[a] - V[d], V[b] - V[d], V[c] - V[d]]))) / 6 for a, b, c, d in C])
         tot = float(vol.sum())
         Mv = get("massvv:0,0", (n, n))
